@@ -1191,6 +1191,10 @@ int32_t jls_core_ts_seek(struct jls_core_s * self, uint16_t signal_id, uint8_t l
                 --idx;
                 break;
             } else if (r->entries[idx].timestamp == timestamp) {
+                if ((lvl > 1) && (idx > 0)) {
+                    // entries with this same timestamp may end the previous chunk
+                    --idx;
+                }
                 break;
             }
         }
